@@ -401,7 +401,76 @@ def ob_qft(a):
     return [res(name, PROVED, backend="native", cases=cases)]
 
 
-OBS = {"append_circuit": ob_append_circuit, "append_circuit_raises": ob_append_circuit_raises, "add": ob_add, "iadd": ob_iadd, "repeat": ob_repeat,
+def ob_append_circuit_loop(a):
+    """Loop-invariant cut of the two map loops of append_circuit (lifts the length bound for that method).
+    INVARIANT  ogates = [(g, [qubits[w] for w in ws], p) for (g, ws, p) in other.gates[:i]]   (same for ogates_computed)
+    STEP       from an ARBITRARY prefix (a sentinel the body cannot distinguish: checked syntactically - inside the loop the accumulator
+               occurs only as the receiver of .append) one iteration with an opaque gate on wires ws appends exactly (g, [qubits[w] ...], p),
+               leaves the prefix, other.gates, qubits and the element itself untouched
+    INIT / EXIT empty accumulators; gates.extend(accumulator) - covered by the per-length obligations above."""
+    import ast
+    import inspect
+    import textwrap
+    from qlasskit.qcircuit import QCircuit
+    which, = a
+    acc = "ogates" if which == "gates" else "ogates_computed"
+    name = f"C14.append_circuit.loop-step[{which}]"
+    fn = QCircuit.append_circuit
+    lines, start = inspect.getsourcelines(fn)
+    tree = ast.parse(textwrap.dedent("".join(lines)))
+    ast.increment_lineno(tree, start - 1)
+    loops = [n for n in ast.walk(tree) if isinstance(n, ast.For) and isinstance(n.iter, ast.Attribute) and n.iter.attr == which
+             and isinstance(n.iter.value, ast.Name) and n.iter.value.id == "other"]
+    if len(loops) != 1:
+        return [res(name, UNDECIDED, backend="pyvc", detail=f"{len(loops)} loops over other.{which} found: the invariant no longer matches the code")]
+    loop = loops[0]
+    # syntactic frame of the body: the accumulator only as receiver of .append; other / qubits / self not written
+    bad = []
+    for n in ast.walk(ast.Module(body=loop.body, type_ignores=[])):
+        if isinstance(n, ast.Name) and n.id == acc:
+            pass
+    uses = [n for b in loop.body for n in ast.walk(b) if isinstance(n, ast.Name) and n.id == acc]
+    appends = [n for b in loop.body for n in ast.walk(b) if isinstance(n, ast.Call) and isinstance(n.func, ast.Attribute) and n.func.attr == "append"
+               and isinstance(n.func.value, ast.Name) and n.func.value.id == acc]
+    if len(uses) != len(appends) or len(appends) != 1:
+        return [res(name, UNDECIDED, backend="static", detail=f"inside the loop `{acc}` occurs {len(uses)} times, {len(appends)} of them as receiver of .append: prefix-independence not established")]
+    n_cases = 0
+    for nq in (1, 2, 3):
+        for ar in range(0, min(nq, 3) + 1):
+            for ws in itertools.permutations(range(nq), ar):
+                for qubits in list(itertools.permutations(range(nq + 1), nq))[:8]:
+                    other = mk_circuit(nq, [])
+                    selfc = mk_circuit(nq + 1, [])
+                    g, p = Token("g"), Token("p")
+                    elem = (g, list(ws), p)
+                    prefix = Token("PREFIX")
+                    ql = list(qubits)
+                    eng = pyvc.Engine()
+
+                    def ctl(vc, iterable, fl):
+                        fl[acc].append(prefix)          # havoc: "whatever was accumulated so far"
+
+                        def gen():
+                            yield elem
+                            raise pyvc.LoopCut(list(fl[acc]))
+                        return gen()
+                    eng.loop_controllers[loop.lineno] = ctl
+                    paths = eng.explore(lambda vc: (fn, [selfc, other, ql], {}))
+                    n_cases += 1
+                    ok = len(paths) == 1 and paths[0].kind == "loopcut"
+                    if ok:
+                        st = paths[0].value
+                        ok = (len(st) == 2 and st[0] is prefix and isinstance(st[1], tuple) and len(st[1]) == 3 and st[1][0] is g and st[1][2] is p
+                              and st[1][1] == [qubits[w] for w in ws] and st[1][1] is not elem[1] and elem[1] == list(ws) and ql == list(qubits)
+                              and other.gates == [] and selfc.gates == [])
+                    if not ok:
+                        return [res(name, REFUTED, backend="pyvc-opaque", replayed=True,
+                                    replay=dict(wires=list(ws), qubits=list(qubits), observed=str(paths[0].value if paths else None)[:300],
+                                                expected="prefix ++ [(g, [qubits[w] for w in wires], p)]", call="one iteration of the loop of QCircuit.append_circuit from a havocked accumulator"))]
+    return [res(name, PROVED, backend="pyvc-opaque+static", cases=n_cases)]
+
+
+OBS = {"append_circuit_loop": ob_append_circuit_loop, "append_circuit": ob_append_circuit, "append_circuit_raises": ob_append_circuit_raises, "add": ob_add, "iadd": ob_iadd, "repeat": ob_repeat,
        "copy": ob_copy, "append": ob_append, "remove_identities": ob_remove_identities, "qft": ob_qft}
 
 
@@ -430,6 +499,8 @@ def run(tier, only=None):
                 jobs.append(("append_circuit", (nqo, length, nqs)))
     jobs.append(("append_circuit", (3, 1, 3)))
     jobs.append(("append_circuit_raises", None))
+    jobs.append(("append_circuit_loop", ("gates",)))
+    jobs.append(("append_circuit_loop", ("gates_computed",)))
     for nq in (2, 3):
         for l1 in range(0, 3):
             for l2 in range(0, 3):
@@ -462,7 +533,7 @@ def run(tier, only=None):
     rep.under_contract(QCircuit.append_circuit, QCircuit.__iadd__, QCircuit.__add__, QCircuit.repeat, QCircuit.copy, QCircuit.append,
                        QCircuit.qft, QCircuit.iqft, QCircuitEnhanced.remove_identities)
     rep.extra.update(shape_space=[dict(what="gate lists of length <= %d over <= 3 qubits with every wire assignment and every qubit remapping; gate objects and parameters opaque" % L,
-                                       complete="per length; the length bound is NOT lifted (no loop invariants)")],
+                                       complete="per length; for append_circuit the length bound is lifted by the loop-step obligations (invariant cut); for repeat / __add__ / copy it is not")],
                      lemma="act(gs ++ hs) = act(hs) o act(gs); (g1...gk)^-1 = gk^-1...g1^-1 - two lines of standard mathematics, not machine-checked")
     rep.trusted = ["CPython executing the instrumented source", "opacity guard: a token raises on every inspection, so a passing run cannot depend on gate content"]
     rep.assumptions = ["A8 standard meaning of gate names (only used for remove_identities' numeric action and for 'CP(-t) inverts CP(t)')",
